@@ -210,6 +210,40 @@ fn c03_search(seed: u64) -> Option<(String, String)> {
     None
 }
 
+// ---------------------------------------------------------------- C02: round trip of header / metadata / names
+fn c02_check(seed: u64) -> Result<(), String> {
+    use hickory_proto::op::{MessageType, OpCode, ResponseCode};
+    let mut r = Rng(seed | 1);
+    let mut m = c03_build(&mut r);
+    let opv = r.below(16) as u8;
+    m.metadata.op_code = OpCode::from_u8(opv);
+    m.metadata.message_type = if r.below(2) == 0 { MessageType::Query } else { MessageType::Response };
+    m.metadata.authoritative = r.below(2) == 0;
+    m.metadata.recursion_desired = r.below(2) == 0;
+    m.metadata.recursion_available = r.below(2) == 0;
+    m.metadata.authentic_data = r.below(2) == 0;
+    m.metadata.checking_disabled = r.below(2) == 0;
+    let code: u16 = if m.edns.is_some() { [0u16, 1, 5, 15, 16, 17, 23, 24, 255, 2736, 4095][r.below(11) as usize] } else { r.below(16) as u16 };
+    m.metadata.response_code = ResponseCode::from((code >> 4) as u8, (code & 0xF) as u8);
+    if let Some(e) = m.edns.as_mut() { if r.below(2) == 0 { e.set_rcode_high(0xAB); } }
+    if m.metadata.op_code == OpCode::Update { return Ok(()); } // update messages use other section semantics
+    let bytes = m.to_bytes().map_err(|e| format!("encode failed: {e}"))?;
+    let d = Message::from_vec(&bytes).map_err(|e| format!("own encoding does not decode: {e}"))?;
+    if d.metadata != m.metadata { return Err(format!("metadata changed by encode/decode: {:?} -> {:?}", m.metadata, d.metadata)); }
+    if d.queries != m.queries || d.answers != m.answers || d.authorities != m.authorities || d.additionals != m.additionals {
+        return Err("records changed by encode/decode".into());
+    }
+    let again = d.to_bytes().map_err(|e| format!("re-encode failed: {e}"))?;
+    let d2 = Message::from_vec(&again).map_err(|e| format!("re-encoding does not decode: {e}"))?;
+    if d2.metadata != d.metadata || d2.answers != d.answers { return Err("decode(encode(decode(b))) differs from decode(b)".into()); }
+    Ok(())
+}
+fn c02_search(seed: u64) -> Option<(String, String)> {
+    let mut r = Rng(seed.wrapping_mul(0xA0761D6478BD642F) | 1);
+    for _ in 0..20000 { let s = r.next(); if let Err(e) = c02_check(s) { return Some((format!("{s}"), e)); } }
+    None
+}
+
 // ---------------------------------------------------------------- C04: canonical order / equality
 fn ref_lower(b: u8) -> u8 { if b.is_ascii_uppercase() { b + 32 } else { b } }
 fn ref_cmp(a: &[Vec<u8>], b: &[Vec<u8>]) -> Ordering {
@@ -313,6 +347,7 @@ fn main() {
             "c01_decode" => c01_check(&unhex(&inp)),
             "c03_trunc" => { let s0 = u64::from_str_radix(&inp[..16], 16).unwrap(); let lim = u16::from_str_radix(&inp[16..20], 16).unwrap(); let mut r = Rng(s0); c03_check(&c03_build(&mut r), lim) }
             "c04_order" => { let (a, b) = dec_labels(&inp); c04_check(&a, &b) }
+            "c02_roundtrip" => c02_check(inp.parse().unwrap()),
             "c12_serial" => c12_check(inp.parse().unwrap()),
             "c13_tsig" => { let mut p = inp.split(','); c13_check(p.next().unwrap().parse().unwrap(), p.next().unwrap().parse().unwrap()) }
             _ => { eprintln!("unknown oracle"); std::process::exit(2) }
@@ -325,6 +360,7 @@ fn main() {
         "c01_decode" => c01_search(seed).map(|(b, e)| (hex(&b), e)),
         "c03_trunc" => c03_search(seed),
         "c04_order" => c04_search(seed),
+        "c02_roundtrip" => c02_search(seed),
         "c12_serial" => [0u32, 1, 0x7fff_ffff, 0x8000_0000, u32::MAX - 1, u32::MAX].iter().find_map(|&s| c12_check(s).err().map(|e| (s.to_string(), e))),
         "c13_tsig" => [(1609459200u64, 300u16), (300, 300), (299, 300), (5, 300), (0, 0), (0, 65535), ((1 << 48) - 1, 65535)].iter()
             .find_map(|&(t, f)| c13_check(t, f).err().map(|e| (format!("{t},{f}"), e))),
